@@ -178,24 +178,8 @@ func main() {
 		}
 		n.WaitHeight(h0+1, 2*time.Second)
 	}})
-	ne := len(events)
-	r.Note("%d events in the menu", ne)
-	item := 0
-	var rec func(seq []int)
-	run := func(seq []int) {
-		item++
-		if !r.Mine(item) || r.Expired("event sequences") {
-			return
-		}
-		n := env.Fresh()
-		var names []string
-		for _, e := range seq {
-			events[e].do(n)
-			names = append(names, events[e].name)
-		}
-		r.Count("executions", 1)
-		r.Count("transitions", int64(len(seq)))
-		r.Seen("states", fmt.Sprint(seq))
+	// judgeChain applies the independent predicate to every transaction of every best-chain block above the trunk
+	judgeChain := func(n *vnode.Node, names []string) int64 {
 		h := n.Chain.GetBlockHeight()
 		seen := map[string]int64{}
 		for i := int64(treex.TrunkLen + 1); i <= h; i++ {
@@ -215,6 +199,27 @@ func main() {
 				}
 			}
 		}
+		return h
+	}
+	ne := len(events)
+	r.Note("%d events in the menu", ne)
+	item := 0
+	var rec func(seq []int)
+	run := func(seq []int) {
+		item++
+		if !r.Mine(item) || r.Expired("event sequences") {
+			return
+		}
+		n := env.Fresh()
+		var names []string
+		for _, e := range seq {
+			events[e].do(n)
+			names = append(names, events[e].name)
+		}
+		r.Count("executions", 1)
+		r.Count("transitions", int64(len(seq)))
+		r.Seen("states", fmt.Sprint(seq))
+		h := judgeChain(n, names)
 		r.Seen("distinct", fmt.Sprintf("len=%d final-height=%d first=%s", len(seq), h, strings.SplitN(names[0], "-", 2)[0]))
 		n.Close()
 		n.Forget()
@@ -233,5 +238,84 @@ func main() {
 		}
 	}
 	rec(nil)
+	// part B — replays across a restart. The node keeps only its last few blocks in memory
+	// (defCacheSize=2, a legal configuration); a transaction mined k blocks ago is offered again, in a
+	// peer's block or through the pool, with and without a restart in between.
+	{
+		editB := func(s string) string { return strings.Replace(edit(s), "defCacheSize=128\n", "defCacheSize=2\n", 1) }
+		var envB *treex.Env
+		for _, hb := range []bool{true, false} {
+			for k := 0; k <= r.Pick(4, 8); k++ {
+				for _, restart := range []bool{false, true} {
+					for _, viaPool := range []bool{false, true} {
+						item++
+						if !r.Mine(item) || r.Expired("restart scenarios") {
+							continue
+						}
+						if envB == nil {
+							var err error
+							if envB, err = treex.NewEnv(editB); err != nil {
+								fmt.Println("HARNESS-ERROR", err)
+								r.Finish()
+							}
+							defer envB.P.Close()
+						}
+						tipB := envB.Trunk[treex.TrunkLen]
+						tx := transfer(cfg, rcv[0], 17, 1000000, int64(9900+k), 0, cid, true)
+						if hb {
+							tx = transfer(cfg, rcv[0], 17, 1000000, int64(9950+k), th+14, cid, true)
+						}
+						mkB := func(parent *types.Block, txs []*types.Transaction) *types.Block {
+							b, err := envB.MakeWith(parent, txs, treex.Bits[0], 0)
+							if err != nil {
+								panic(fmt.Sprint("producer: ", err))
+							}
+							return b
+						}
+						chain := []*types.Block{mkB(tipB, []*types.Transaction{tx})}
+						for i := 0; i < k; i++ {
+							b, err := envB.Make(chain[len(chain)-1], 1, treex.Bits[0])
+							if err != nil {
+								panic(fmt.Sprint("producer: ", err))
+							}
+							chain = append(chain, b)
+						}
+						names := []string{fmt.Sprintf("W(height-bounded=%v)", hb), fmt.Sprintf("%d-more-blocks", k)}
+						n := envB.Fresh()
+						for _, b := range chain {
+							_ = n.Deliver(vnode.Broadcast, b, "peer")
+						}
+						h0 := n.Chain.GetBlockHeight()
+						if restart {
+							snap := n.Snapshot()
+							n.Close()
+							n.Forget()
+							n = vnode.New(vnode.Options{Snap: snap, CfgEdit: editB})
+							n.WaitHeight(h0, 5*time.Second)
+							names = append(names, "restart")
+						}
+						if viaPool {
+							_, _ = n.API.SendTx(tx)
+							_, _ = n.API.SendTx(transfer(cfg, rcv[1], 3, 1000000, int64(9980+k), 0, cid, true))
+							n.WaitHeight(h0+1, 2*time.Second)
+							names = append(names, "submit-it-again-and-produce")
+						} else {
+							rep := mkB(chain[len(chain)-1], []*types.Transaction{tx, transfer(cfg, rcv[1], 3, 1000000, int64(9990+k), 0, cid, true)})
+							_ = n.Deliver(vnode.Broadcast, rep, "peer")
+							names = append(names, "peer-block-repeating-it")
+						}
+						r.Count("executions", 1)
+						r.Count("restart_scenarios", 1)
+						r.Count("transitions", int64(len(chain)+2))
+						r.Seen("states", fmt.Sprint(names))
+						h := judgeChain(n, names)
+						r.Seen("distinct", fmt.Sprintf("restart-part hb=%v restart=%v pool=%v grew=%v", hb, restart, viaPool, h > h0))
+						n.Close()
+						n.Forget()
+					}
+				}
+			}
+		}
+	}
 	r.Finish()
 }
